@@ -132,7 +132,7 @@ def _rand_cfg(rng, n):
 
 def gen_random(seed, tier):
     rng = random.Random(seed)
-    nrand = 4000 if tier == "quick" else 120000
+    nrand = 8000 if tier == "quick" else 500000
     pool = (1, 2, -3, 7, 0)
     for i in range(nrand):
         d = rng.choice([0, 0, 1])
